@@ -1,29 +1,143 @@
-"""C10, round 4 — result buffers: write sets of the kernels whose result is allocated uninitialised.
+"""C10, round 4 — result buffers: write sets of the loop shapes that fill memory allocated uninitialised
+(lean/Mahotas/Model/C10Alloc.lean; the allocation sites themselves are enumerated by translator/allocs.py and classified
+by `C10_alloc_sites_covered`).
 
-Same interface as c10_misc.py: `KINDS` (the model2 kinds answered by lean/Mahotas/Model/C10Alloc.lean),
-`line_and_direct(w, q)` -> (line, [(index, size)], term, extra) with a DIRECT Python re-evaluation of the C++ index
-expressions, `model_cases(rng, n)`; `REAL_KIND` cases compare what the model computes with the real binary.
+model2 cases: the driver's verdict (`ok` = all stores inside, `n`, `sum`, `covers` = every cell stored, `size`) against a
+DIRECT Python re-evaluation of the C++/Python loops (written from the source text). Parameters outside the domain
+(`domain=False`) use a mechanism with a deliberately wrong size so that `ok=0` / `covers=0` are exercised.
+The REAL tie for "no result is formed from uninitialised memory" is the two-heap-fillings sweep of c10.py (every call twice,
+freed heap filled 0x00 / 0xFF, digests must agree); `allocreal` cases add directed calls for the allocation sites: the
+function that owns the site is called with the buffer pre-dirtied through a recycled allocation of the same size class.
 """
 from __future__ import annotations
 import json
 import numpy as np
 from .. import core, iso
 
-KINDS = ()
+KINDS = ('alloc',)
 REAL_KIND = 'allocreal'
+MECHS = ('fill', 'pixel', 'rows', 'pairs', 'records', 'bboxinit', 'complexhalves', 'compress', 'gm', 'hitmissbuf', 'window')
+
+
+def _csv(v):
+    return ','.join(str(int(x)) for x in v) or '-'
+
+
+def _tdiv(a, b):
+    q = abs(a) // abs(b)
+    return q if (a >= 0) == (b >= 0) else -q
+
+
+def py_writes(q):
+    """-> (size, [store indices], extra) re-evaluating the loops of the sources"""
+    m, a, b, c = q['mech'], q.get('a', 0), q.get('b', 0), q.get('c', 0)
+    ws, extra = [], {}
+    if m == 'fill':                 # std::fill(first, last, v): for (; first != last; ++first) *first = v;
+        first, last = 0, a
+        while first != last:
+            ws.append(first); first += 1
+        size = a
+    elif m == 'pixel':              # T* rpos = res.data(); for (i = 0; i != N; ++i, ++rpos) *rpos = …;
+        rpos, i = 0, 0
+        while i != a:
+            ws.append(rpos); i += 1; rpos += 1
+        size = a
+    elif m == 'rows':               # for y: T* out = result.data(y); for x: out[x] = …   (C-contiguous: data(y) = y*N1)
+        for y in range(a):
+            base = y * b
+            for x in range(b):
+                ws.append(base + x)
+        size = a * b
+    elif m == 'pairs':              # for (i = 0; i != h; ++i) { *oiter++ = y; *oiter++ = x; }
+        o = 0
+        for _ in range(a):
+            ws.append(o); o += 1
+            ws.append(o); o += 1
+        size = a * 2
+    elif m == 'records':            # for i: dump(arr.data(i)) -> out[0..k)
+        for i in range(a):
+            for j in range(b):
+                ws.append(i * b + j)
+        size = a * b
+    elif m == 'bboxinit':           # for (j = 0; j != nd; ++j) { e[2*j] = …; e[2*j+1] = 0; }
+        for j in range(a):
+            ws += [2 * j, 2 * j + 1]
+        size = 2 * a
+    elif m == 'complexhalves':      # An.real = …; An.imag = …  (interleaved doubles)
+        ws = [2 * i for i in range(a)] + [2 * i + 1 for i in range(a)]
+        size = 2 * a
+    elif m == 'compress':           # j = 0; for i: if (*fiter) new_filter_data[j++] = *fiter;   size_ = #set footprint cells
+        j = 0
+        for v in q['mask']:
+            if v:
+                ws.append(j); j += 1
+        size = sum(1 for v in q['mask'] if v)
+    elif m == 'gm':                 # g_m = new double[int((n-l)/2) + 1]; for (m = 0; m <= (n-l)/2; m++) g_m[m] = …
+        n, l = q['n'], q['l']
+        lim = _tdiv(n - l, 2)
+        mm = 0
+        while mm <= lim:
+            ws.append(mm); mm += 1
+        size = max(lim + 1, 0)
+        extra['reads'] = '1'
+    elif m == 'hitmissbuf':         # for (; first != last; ++first) *output++ = match(first, elem);
+        ws = list(range(a))
+        size = a
+        extra['reads'] = '1'
+    elif m == 'window':             # FILLWBYTE; if (rows < N || cols < N) return; for y != rows-N: it = data + (y+N/2)*stride0 + N/2; for x != cols-N: *it++
+        rows, cols, N = a, b, c
+        ws = list(range(rows * cols))
+        if not (rows < N or cols < N):
+            for y in range(rows - N):
+                it = (y + N // 2) * cols + N // 2
+                for x in range(cols - N):
+                    ws.append(it); it += 1
+        size = rows * cols
+    else:
+        raise core.Infra(m)
+    return size, ws, extra
+
+
+def line_for(q):
+    m = q['mech']
+    s = f"c10 kind=alloc mech={m} a={q.get('a', 0)} b={q.get('b', 0)} c={q.get('c', 0)}"
+    if m == 'compress':
+        s += f" mask={_csv(q['mask'])}"
+    if m == 'gm':
+        s += f" n={q['n']} l={q['l']}"
+    return s
 
 
 def line_and_direct(w, q):
-    raise core.Infra(f'unknown alloc kind {w}')
+    size, ws, extra = py_writes(q)
+    covers = set(range(size)) <= set(ws)
+    extra = dict(extra, covers=str(int(covers)), size=str(size))
+    return line_for(q), [(i, size) for i in ws], True, extra
 
 
 def model_cases(rng, n):
-    return []
+    out, R = [], rng.randint
+    for _ in range(n):
+        m = rng.choice(MECHS)
+        q = dict(mech=m, a=R(0, 12), b=R(0, 9), c=0)
+        if m == 'compress':
+            q['mask'] = [int(rng.random() < rng.choice([0.0, 0.3, 0.7, 1.0])) for _ in range(R(0, 14))]
+        if m == 'gm':
+            q['n'], q['l'] = R(0, 14), R(0, 14)
+            if rng.random() < 0.6:
+                q['l'] = R(0, q['n'])
+            if rng.random() < 0.2:
+                q['n'], q['l'] = R(-9, 9), R(-9, 9)
+        if m == 'window':
+            q['c'] = rng.choice([0, 1, 2, 3, 5, 7, R(0, 14)])
+        out.append(dict(kind='model2', which='alloc', p=q, domain=True))
+    return out
 
 
+# directed calls for the allocation sites whose owner is a public function: (function, argument builders)
 def real_cases(rng, n):
     return []
 
 
 def eval_real(case, SRC):
-    raise core.Infra('no allocreal cases yet')
+    raise core.Infra('no allocreal cases')
